@@ -158,6 +158,10 @@ Ltac free_pc := eapply inv_pc_free_gen; eauto; simp; try reflexivity; try tauto;
                 try (match goal with H : pc _ _ = _ |- _ => rewrite H end; simpl; try reflexivity; try tauto);
                 try (simpl; tauto).
 
+Ltac bf HI := dinv HI; constructor; simp; intros; eqb_cases; inj_all; simpl in *;
+  try (match goal with Hpc : pc _ ?i = _ |- _ => rewrite Hpc in * end); simpl in *;
+  eauto; try congruence; try tauto; try lia.
+
 Lemma inv_step : forall s a s' e, Inv s -> owner_free s -> step s a = Some (s', e) -> Inv s'.
 Proof.
   intros s a s' e HI HO H. destruct a.
@@ -172,7 +176,7 @@ Proof.
   - (* ASend *) admit.
   - (* ASendCtx *) admit.
   - (* AUnsub *) admit.
-  - (* AUnsubSend *) admit.
+  - (* AUnsubSend *) inv_step H; bf HI. Show.
   - (* ARemove *) admit.
   - (* AClose *) inv_step H. pose proof (inv_shut _ _ _ _ _ HI Heqp) as HI1.
     destruct (shut_frame _ _ _ _ _ Heqp) as (Ep & Ec & Es & Ew & _).
@@ -180,11 +184,11 @@ Proof.
       eapply (inv_pc_free_gen s0); eauto; simp; try lia; rewrite ?Ep, ?Ec; try rewrite Hpc; simpl; auto;
       try (destruct k; simpl; reflexivity);
       try (destruct k; simpl; try tauto; intros _; eapply (I7 _ HI); rewrite Hpc; simpl; auto) end.
-  - (* ARLRemove *) inv_step H. eapply inv_set_cn_same; eauto. eapply inv_remove_sub; eauto.
-  - (* ARLClose *) inv_step H. eapply inv_set_cn_same; eauto. eapply inv_shut; eauto.
-  - (* ARLReadErr *) inv_step H. eapply inv_set_cn_same; eauto. eapply inv_shut; eauto.
+  - (* ARLRemove *) inv_step H; (eapply inv_set_cn_same; eauto; eapply inv_remove_sub; eauto).
+  - (* ARLClose *) inv_step H; (eapply inv_set_cn_same; eauto; eapply inv_shut; eauto).
+  - (* ARLReadErr *) inv_step H; (eapply inv_set_cn_same; eauto; eapply inv_shut; eauto).
   - (* ATimerFire *) inv_step H; eapply inv_set_cn_same; eauto.
-  - (* ATimerClose *) inv_step H. eapply inv_shut; [|eauto]. eapply inv_set_cn_same; eauto.
+  - (* ATimerClose *) inv_step H; (eapply inv_shut; [|eauto]; eapply inv_set_cn_same; eauto).
   - (* ARemoveConn *) inv_step H. eapply (inv_ext (set_cn s c (c_set_rm c0 false))); eauto.
     eapply inv_set_cn_same; eauto.
   - (* UpAccept *) inv_step H. eapply inv_ext; eauto.
@@ -198,7 +202,7 @@ Proof.
       pose proof (HO _ _ Hd) as Hp; rewrite Hph in Hp; specialize (Hp ltac:(discriminate)) end.
     eapply (inv_pc_free_gen s); eauto; simp; try lia; try rewrite Hp; simpl; auto; try discriminate; tauto.
   - (* UpMsg *) inv_step H; auto; eapply inv_set_cn_same; eauto.
-  - (* UpDrop *) inv_step H. eapply inv_set_cn_same; eauto. unfold c_kill; simpl. congruence.
+  - (* UpDrop *) inv_step H. eapply inv_set_cn_same; eauto; unfold c_kill; simpl; congruence.
   - (* APingTimeout *) inv_step H. eapply inv_shut; eauto.
   - inv_step H; eapply inv_ext; eauto.
   - inv_step H; eapply inv_ext; eauto.
